@@ -97,13 +97,12 @@ def handle : List String → String
       let out := joinOrDot ";" (sortStrs (r.out.map Hex.enc))
       s!"ok exit={r.exit} errs={r.readErrors} read={r.readLines} matched={r.matched} logs={logs} out={out}"
     | _, _, _, _, _, _, _, _, _ => "bad-args"
-  | ["glob", rec, args, fs] =>
+  | "glob" :: rec :: args :: fs :: _ =>
     match bool? rec, decHexList args, parseFs fs with
     | some rec, some args, some fs =>
-      let bad := (args.filter (expandArgBad (mkFs fs) rec)).length
-      s!"ok bad={bad} {hexList (planFiles (mkFs fs) rec args)}"
+      s!"ok {hexList (planFiles (mkFs fs) rec args)}"
     | _, _, _ => "bad-args"
-  | ["open", gz, names, files] =>
+  | "open" :: gz :: names :: files :: _ =>
     match bool? gz, decHexList names, parseFiles files with
     | some gz, some names, some files =>
       let srcs := names.map fun p => runFile gz p (mkFiles files p)
